@@ -5,10 +5,49 @@ From PitCs Require Import Model Spec Lib TreeInv Cs Pit Reclaim Dnl C07.
 Import ListNotations.
 Open Scope Z_scope.
 
+Definition life_ok (L : Z) (o : op) : Prop :=
+  match o with OInterest _ _ _ _ _ life _ => lifetime_of life <= L | _ => True end.
 Definition lifetimes_within (L : Z) (ops : list op) : Prop := Forall (life_ok L) ops.
 
-Lemma reach_g : forall t0 c sv ad life ops L, 0 <= L -> lifetimes_within L ops -> g_inv (run (start t0 c sv ad life) ops) L.
-Proof. intros. apply run_ginv; [assumption|assumption|apply init_ginv]. Qed.
+(* the deadlines of a history: per PIT key, the latest (arrival + lifetime) among the Interests received for it since its
+   entry came into existence (Reclaim.dl_run); keys without an entry carry "now" *)
+Definition deadlines (t0 : Z) (c : N) (sv ad : bool) (life : Z) (ops : list op) : key -> Z :=
+  dl_run (start t0 c sv ad life) (fun _ => t0) ops.
+
+Lemma reach_gd : forall t0 c sv ad life ops, g_inv (run (start t0 c sv ad life) ops) (deadlines t0 c sv ad life ops).
+Proof. intros. apply run_ginv. apply init_ginv. Qed.
+
+Lemma step_now : forall s o, now (fst (step s o)) = match o with OAdv d => now s + Z.of_N d | _ => now s end.
+Proof.
+  intros s o. destruct o as [d|c|n w f|n cbp mbf|face n cbp mbf nonce life sent|n w f tok| |]; simpl; try reflexivity.
+  - apply (dsame_insert_data s n w f).
+  - pose proof (dsame_find_cs s n cbp mbf) as [_ [_ [_ H]]]. destruct (find_cs s n cbp mbf). exact H.
+  - pose proof (drel_process_interest s face n cbp mbf nonce life sent) as [_ [H _]].
+    destruct (process_interest s face n cbp mbf nonce life sent) as [[s' k] c]. exact H.
+  - apply (drel_process_data s n w f tok).
+  - apply (drel_pit_update s).
+  - destruct (dnl_sweep_fields s) as [_ [_ [H _]]]. exact H.
+Qed.
+
+Lemma dl_step_le : forall s bd o L, 0 <= L -> life_ok L o -> (forall k, bd k <= now s + L) ->
+  forall k, dl_step s bd o k <= now (fst (step s o)) + L.
+Proof.
+  intros s bd o L HL Hl Hb k. unfold dl_step, tighten. destruct (has_key (fst (step s o)) k); [|lia].
+  assert (Hn : now s <= now (fst (step s o))) by (rewrite step_now; destruct o; lia).
+  destruct o; simpl bd_step; try (specialize (Hb k); lia).
+  unfold bump. simpl in Hl. destruct (pkey_eqb (n, cbp, mbf) k); specialize (Hb k); lia.
+Qed.
+
+Lemma dl_run_le : forall ops s bd L, 0 <= L -> lifetimes_within L ops -> (forall k, bd k <= now s + L) ->
+  forall k, dl_run s bd ops k <= now (run s ops) + L.
+Proof.
+  induction ops as [|o t IH]; intros s bd L HL Hl Hb k; [apply Hb|]. inversion Hl; subst. simpl dl_run.
+  change (run s (o :: t)) with (run (fst (step s o)) t). apply IH; [exact HL|assumption|]. apply dl_step_le; assumption.
+Qed.
+
+Lemma deadlines_le : forall t0 c sv ad life ops L, 0 <= L -> lifetimes_within L ops ->
+  forall k, deadlines t0 c sv ad life ops k <= now (run (start t0 c sv ad life) ops) + L.
+Proof. intros. apply dl_run_le; try assumption. intro. simpl. lia. Qed.
 
 Lemma reach_d : forall t0 c sv ad life ops, d_inv (run (start t0 c sv ad life) ops).
 Proof. intros. apply run_dinv. apply init_dinv. Qed.
@@ -23,7 +62,7 @@ Proof.
 Qed.
 
 (* ---- sizes ---- *)
-Lemma sizes_truthful : forall s L, g_inv s L ->
+Lemma sizes_truthful : forall s (L : key -> Z), g_inv s L ->
   npit s = Z.of_nat (length (E s)) /\ length (tokmap s) = length (E s) /\ length (heap s) = length (E s) /\
   ncs s = Z.of_nat (length (c_list (cache_of s))) /\ length (csmap s) = length (lruq s) /\ length (locs s) = length (lruq s).
 Proof.
@@ -86,7 +125,7 @@ Qed.
 Lemma dn_busy_idle : forall nd, dn_busy (dn_of nd) = negb (node_idle nd).
 Proof. intro nd. unfold dn_busy, dn_of, node_idle, dn_queued. simpl. destruct (n_pit nd); destruct (n_cs nd); reflexivity. Qed.
 
-Theorem oracle_always : forall s L, g_inv s L -> d_inv s -> c08_always (dump_of s) = [].
+Theorem oracle_always : forall s (L : key -> Z), g_inv s L -> d_inv s -> c08_always (dump_of s) = [].
 Proof.
   intros s L G D. pose proof G as [P ND OK]. pose proof (pi_cs s P) as C.
   destruct (sizes_truthful s L G) as [S1 [S2 [S3 [S4 [S5 S6]]]]].
@@ -128,7 +167,7 @@ Proof.
   rewrite C1, C2, C3, C4, C5, C6, C7, C8. reflexivity.
 Qed.
 
-Theorem oracle_quiescent : forall s L, g_inv s L -> E s = [] -> dnl s = [] -> dnlq s = [] -> c08_quiescent (dump_of s) = [].
+Theorem oracle_quiescent : forall s (L : key -> Z), g_inv s L -> E s = [] -> dnl s = [] -> dnlq s = [] -> c08_quiescent (dump_of s) = [].
 Proof.
   intros s L G HE Hd Hq. pose proof G as [P ND OK]. pose proof (pi_cs s P) as C.
   destruct (pit_empty_all s P HE) as [E1 [E2 E3]].
@@ -168,21 +207,32 @@ Proof.
   destruct (dnl_sweep_fields s) as [N1 [_ [N3 _]]]. unfold E in *. rewrite A, B, N1, N3. split; reflexivity.
 Qed.
 
-(* PIT entries are always queued for expiry, due at most L after now (at once when no record is left) *)
+(* PIT entries are always queued for expiry; their expiration time is at most the deadline of their key (the latest
+   arrival + lifetime among the Interests received for it), and at most now once no record is left *)
+Lemma pit_deadline : forall t0 c sv ad life ops,
+  let s := run (start t0 c sv ad life) ops in
+  forall e, In e (E s) -> p_q e = true /\ In (p_id e, p_exp e) (heap s) /\
+                          p_exp e <= Z.max (now s) (deadlines t0 c sv ad life ops (key_of e)) /\
+                          (p_ins e = [] -> p_outs e = [] -> p_exp e <= now s).
+Proof.
+  intros t0 c sv ad life ops s e He. destruct (g_ok _ _ (reach_gd t0 c sv ad life ops) e He) as [Q1 [Q2 [B1 [_ B3]]]]. tauto.
+Qed.
+
 Lemma pit_queued : forall t0 c sv ad life ops L, 0 <= L -> lifetimes_within L ops ->
   let s := run (start t0 c sv ad life) ops in
   forall e, In e (E s) -> p_q e = true /\ In (p_id e, p_exp e) (heap s) /\ p_exp e <= now s + L /\
                           (p_ins e = [] -> p_outs e = [] -> p_exp e <= now s).
 Proof.
-  intros t0 c sv ad life ops L HL Hl s e He. destruct (g_ok _ _ (reach_g t0 c sv ad life ops L HL Hl) e He) as [Q1 [Q2 [B1 [_ B3]]]]. tauto.
+  intros t0 c sv ad life ops L HL Hl s e He. destruct (pit_deadline t0 c sv ad life ops e He) as [Q1 [Q2 [B1 B3]]].
+  pose proof (deadlines_le t0 c sv ad life ops L HL Hl (key_of e)) as D. subst s. split; [exact Q1|]. split; [exact Q2|]. split; [lia|exact B3].
 Qed.
 
 (* the reaper removes exactly the due entries, and asks to be called again within 100 ms *)
-Lemma reaper : forall t0 c sv ad life ops L, 0 <= L -> lifetimes_within L ops ->
+Lemma reaper : forall t0 c sv ad life ops,
   let s := run (start t0 c sv ad life) ops in let s' := pit_update s in
   (forall e, In e (E s') -> In e (E s) /\ now s < p_exp e) /\ now s < timer_at s' <= now s + tick_interval.
 Proof.
-  intros t0 c sv ad life ops L HL Hl s s'. destruct (pit_update_spec s L (reach_g t0 c sv ad life ops L HL Hl)) as [_ [A [_ B]]]. split; assumption.
+  intros t0 c sv ad life ops s s'. destruct (pit_update_spec s _ (reach_gd t0 c sv ad life ops)) as [_ [A [_ B]]]. split; assumption.
 Qed.
 
 (* once every lifetime has elapsed the next Update() empties PIT, token map and expiry queue *)
@@ -191,10 +241,11 @@ Lemma drains : forall t0 c sv ad life ops L d, 0 <= L -> lifetimes_within L ops 
   E s = [] /\ npit s = 0 /\ tokmap s = [] /\ heap s = [].
 Proof.
   intros t0 c sv ad life ops L d HL Hl Hd s. unfold s. rewrite run_app.
-  set (s0 := run (start t0 c sv ad life) ops). pose proof (reach_g t0 c sv ad life ops L HL Hl) as G0. fold s0 in G0.
+  set (s0 := run (start t0 c sv ad life) ops). pose proof (reach_gd t0 c sv ad life ops) as G0. fold s0 in G0.
   change (run s0 [OAdv d; OTick]) with (pit_update (set_now s0 (now s0 + Z.of_N d))).
-  assert (G1 : g_inv (set_now s0 (now s0 + Z.of_N d)) L) by (apply (step_ginv s0 (OAdv d) L HL Logic.I G0)).
-  apply (pit_drains _ L G1). apply (all_due_after s0 L d G0 Hd).
+  pose proof (step_ginv s0 (OAdv d) _ G0) as G1. simpl in G1.
+  apply (pit_drains _ _ G1). intros e He. change (E (set_now s0 (now s0 + Z.of_N d))) with (E s0) in He.
+  destruct (pit_queued t0 c sv ad life ops L HL Hl e He) as [_ [_ [B _]]]. subst s0. simpl. lia.
 Qed.
 
 (* name tree = prefix closure of the names holding a PIT entry or a cached packet *)
@@ -205,8 +256,8 @@ Lemma tree_is_closure : forall t0 c sv ad life ops L, 0 <= L -> lifetimes_within
   (forall q p, (pit_at (nodes s) q <> [] \/ cs_at (nodes s) q <> None) -> is_prefix p q = true -> In p (paths (nodes s))) /\
   (E s = [] -> forall p, In p (paths (nodes s)) -> p <> [] -> exists q, is_prefix p q = true /\ cs_at (nodes s) q <> None).
 Proof.
-  intros t0 c sv ad life ops L HL Hl s. pose proof (reach_g t0 c sv ad life ops L HL Hl) as G. fold s in G.
-  destruct (tree_closure s L G) as [T [A B]]. split; [apply (t_nodup _ T)|]. split; [exact A|]. split; [exact B|].
+  intros t0 c sv ad life ops L HL Hl s. pose proof (reach_gd t0 c sv ad life ops) as G. fold s in G.
+  destruct (tree_closure s _ G) as [T [A B]]. split; [apply (t_nodup _ T)|]. split; [exact A|]. split; [exact B|].
   intros HE p Hp Hn. destruct (A p Hp Hn) as [q [Q1 [Q2|Q2]]]; [exfalso; apply Q2; apply pit_at_empty; exact HE|exists q; tauto].
 Qed.
 
@@ -256,7 +307,7 @@ Proof.
   assert (Hl' : lifetimes_within L ((ops ++ [OAdv d1; OTick]) ++ [OAdv d2] ++ repeat ODnl k)).
   { apply lifetimes_app; [apply lifetimes_app; [exact Hl|repeat constructor]|]. apply lifetimes_app; [repeat constructor|].
     apply Forall_forall. intros x Hx. apply repeat_spec in Hx. subst x. exact Logic.I. }
-  pose proof (reach_g t0 c sv ad life _ L HL Hl') as G. fold s in G.
+  pose proof (reach_gd t0 c sv ad life ((ops ++ [OAdv d1; OTick]) ++ [OAdv d2] ++ repeat ODnl k)) as G. fold s in G.
   pose proof (reach_d t0 c sv ad life ((ops ++ [OAdv d1; OTick]) ++ [OAdv d2] ++ repeat ODnl k)) as D. fold s in D.
   destruct (drains t0 c sv ad life ops L d1 HL Hl Hd1) as [E1 _]. fold s1 in E1.
   destruct (dnl_drain t0 c sv ad life (ops ++ [OAdv d1; OTick]) d2 k Hd2) as [Q1 Q2]. fold s1 in Q1. fold s in Q1, Q2.
@@ -266,18 +317,18 @@ Proof.
   assert (Hq : dnlq s = []) by (destruct (dnlq s); [reflexivity|simpl in Q1; lia]).
   assert (Hd : dnl s = []) by (destruct (dnl s); [reflexivity|rewrite Hq in Q2; simpl in Q2; lia]).
   destruct (pit_empty_all s (g_p _ _ G) HE) as [A1 [A2 A3]].
-  repeat (split; [assumption|]). split; [apply (oracle_always s L G D)|apply (oracle_quiescent s L G HE Hd Hq)].
+  repeat (split; [assumption|]). split; [apply (oracle_always s _ G D)|apply (oracle_quiescent s _ G HE Hd Hq)].
 Qed.
 
 Lemma oracle_always_reach : forall t0 c sv ad life ops L, 0 <= L -> lifetimes_within L ops ->
   c08_always (dump_of (run (start t0 c sv ad life) ops)) = [].
-Proof. intros. apply (oracle_always _ L); [apply reach_g; assumption|apply reach_d]. Qed.
+Proof. intros. apply (oracle_always _ (deadlines t0 c sv ad life ops)); [apply reach_gd|apply reach_d]. Qed.
 
 Lemma sizes_reach : forall t0 c sv ad life ops L, 0 <= L -> lifetimes_within L ops ->
   let s := run (start t0 c sv ad life) ops in
   npit s = Z.of_nat (length (E s)) /\ length (tokmap s) = length (E s) /\ length (heap s) = length (E s) /\
   ncs s = Z.of_nat (length (c_list (cache_of s))) /\ length (csmap s) = length (lruq s) /\ length (locs s) = length (lruq s).
-Proof. intros. apply (sizes_truthful _ L). apply reach_g; assumption. Qed.
+Proof. intros. apply (sizes_truthful _ (deadlines t0 c sv ad life ops)). apply reach_gd. Qed.
 
 (* the hypothesis `lifetimes_within L ops` is satisfiable for every history *)
 Lemma lifetimes_exist : forall ops, exists L, 0 <= L /\ lifetimes_within L ops.
